@@ -10,7 +10,7 @@ from harness.worker import Stream
 from harness.props import c01
 
 OBLIGATIONS = [
-    "PgmVerif.C07_gibbs_kernel_local", "PgmVerif.C07_lw_weight", "PgmVerif.C07_zero_mass", "PgmVerif.C07_forward_step",
+    "PgmVerif.C07_gibbs_kernel_local", "PgmVerif.C07_gibbs_kernel_normalised", "PgmVerif.C07_lw_weight", "PgmVerif.C07_zero_mass", "PgmVerif.C07_forward_step",
     "PgmVerif.C07_forward_law", "PgmVerif.C07_rejection_law", "PgmVerif.C07_lw_law", "PgmVerif.C07_partial_law",
 ]
 PARTIAL = ["numpy's generator (uniformity, choice honouring p), seed reproducibility and termination of the rejection loop are outside any "
